@@ -7,6 +7,7 @@ CONSTANTS
   WriteLens = {0, 1, 3, 5}
   MaxWrites = 4
   Grants = {1, 2, 6}
+  MaxCredit = 12
   Mwbs = {0, 6}
   Ccs = {0}
   Conns = {0}
